@@ -44,6 +44,9 @@ var sqlSpice = []string{
 var htmlSpice = []string{
 	"</p ", "</a", "<a onclick=alert(1)>", "<a href=javascript:x>", "<!--", "<![CDATA[", "x' onerror=y", "<svg><set attributeName=onmouseover>", "", "<script>", "<a b='", "`", "<a b=\"c", "<%", "<?xml", "<!doctype",
 	"x\" onload=x ", "<a/", "<a b=c/", "</script x='", "<a on", "<p style=", "x` onclick=x", ">", "<", "<a href=&#", "</", "<a b", "<a b=", "<style>",
+	// positives containing NULs (a NUL-stripping scratch buffer), long positives (memos for long inputs)
+	"\x00<xss>", "\x00<script>", "<scr\x00ipt>x", "\x00    <script>alert(1)</script>", "x\x00 onclick=alert(1) ", "\x00<a href=javascript:x>",
+	"<div class=\"container main-content wrapper\"><p>some ordinary text</p><script>alert(document.cookie)</script></div>", strings.Repeat("lorem ipsum dolor sit amet ", 300) + "<img src=x onerror=alert(1)>",
 }
 
 var sqlSpiced = map[string]bool{"C01": true, "C03": true, "C06": true, "C08": true, "C10": true, "C12": true, "C14": true, "C16": true, "C18": true}
@@ -64,7 +67,7 @@ func Lookup(id string) *core.Check {
 			ch.Spice, ch.SpiceCall = htmlSpice, func(s string) { li.IsXSS(s) }
 		}
 		if ch.SpiceCall != nil {
-			ch.Rule += " Before every 61st case each worker feeds two of " + map[bool]string{true: "32", false: "30"}[sqlSpiced[id]] + " fixed history inputs (inputs ending inside a construct, positives, rare rules, the empty string) to the public entry point, results ignored; a violation that a lone call in a fresh process does not show is probed again in a fresh process after the calls recorded before it and is then reported as <kind>-after-history."
+			ch.Rule += " Before every 61st case each worker feeds two of " + map[bool]string{true: "32", false: "38"}[sqlSpiced[id]] + " fixed history inputs (inputs ending inside a construct, positives, rare rules, the empty string) to the public entry point, results ignored; a violation that a lone call in a fresh process does not show is probed again in a fresh process after the calls recorded before it and is then reported as <kind>-after-history."
 		}
 	}
 	return ch
